@@ -98,7 +98,8 @@ class Rig:
             return jax.lax.scan(body, s, acts)
 
         self.scan = jax.jit(rollout)
-        self.eager_budget = {"reset": 1, "step": 2, "chain": 4}
+        self.eager_budget = {"reset": 1, "step": 2, "chain": 4, "event": 2}
+        self.event_sigs_done = set()
 
 
 def run_case(ctx, rig, keys, plans, picks, fail, eager_first):
@@ -203,6 +204,53 @@ def run_case(ctx, rig, keys, plans, picks, fail, eager_first):
                 fail("transform.eager_chain", "pure-eager chain differs from the jitted chain", f"step {t + 1}: {d}")
                 break
             del snap_s
+
+    # 3a''. event-directed eager first steps: the eager budget is tiny, so it is spent where something happens.
+    # A pool of (key, first action) pairs is evaluated with the jitted step (32 keys derived from the drawn key x
+    # up to 64 actions); pairs are grouped by what the step did (step type, sign and magnitude of the reward) and one
+    # representative of the rarest groups is re-executed in plain Python (eager reset, eager step on the eager state).
+    if rig.eager_budget.get("event", 0) > 0:
+        import jax.numpy as jnp
+
+        nact = b.num_flat_actions()
+        if nact <= 64:
+            cand_actions = [b.action_from_flat(i) for i in range(nact)]
+        else:
+            cand_actions = [b.raw_action(picks[0] * 131 + 7919 * i) for i in range(64)]
+        ca = np.stack([np.asarray(a) for a in cand_actions], 0)
+        groups = {}
+        for i in range(32):
+            kw = ((int(keys[0][0]) + i) % 2**32, int(keys[0][1]))
+            s0, _ = b.reset(envs.make_key(kw))
+            _, tsv = episodes.host(b.step_all(s0, ca))
+            rew = np.asarray(tsv.reward, np.float64).reshape(len(cand_actions), -1).sum(1)
+            typ = np.asarray(tsv.step_type).reshape(len(cand_actions), -1)[:, 0]
+            for j in range(len(cand_actions)):
+                sig = (int(typ[j]), int(np.sign(rew[j])), int(np.round(np.log2(abs(rew[j]) + 1.0))))
+                groups.setdefault(sig, []).append((kw, j))
+        ctx.count("event_groups", len(groups))
+        for sig in sorted(groups, key=lambda g: (len(groups[g]), g)):
+            if rig.eager_budget["event"] <= 0:
+                break
+            if sig in rig.event_sigs_done:
+                continue
+            rig.event_sigs_done.add(sig)
+            rig.eager_budget["event"] -= 1
+            kw, j = groups[sig][picks[0] % len(groups[sig])]
+            a = cand_actions[j]
+            key_e = envs.make_key(kw)
+            ref_s, ref_ts = b.reset(key_e)
+            ref2 = episodes.host(b.step(ref_s, a))
+            canon = lambda t: jax.tree_util.tree_map(lambda x: np.asarray(jnp.asarray(x)), t)  # noqa: E731
+            s_e, ts_e = b.env.reset(key_e)
+            out_e = b.env.step(s_e, a)
+            ctx.evals()
+            ctx.count("eager_event_steps")
+            ctx.nontrivial(b.name, b.entry, "eager_event", sig)
+            d = treecmp.diff(canon(out_e), ref2, exact=False)
+            if d:
+                fail("transform.eager_event", "plain Python reset+step differs from the jitted reset+step",
+                     f"key {list(kw)} action {np.asarray(a).tolist()} (event {sig}): {d}")
 
     # 3b. vmap: batch of states from different episodes / depths
     step_calls = [c for c in calls if c[0] == "step"]
@@ -338,7 +386,7 @@ def run_item(item, seed, tier):
     with ctx.guard(env, {"env": env, "entry": entry, "stage": "construct"}):
         rig = Rig(env, entry)
         rig.eager_budget = {"reset": 1, "step": max(1, item.get("eager_steps", 3) - 1),
-                            "chain": 4 if tier == "quick" else 10}
+                            "chain": 4 if tier == "quick" else 10, "event": 2 if tier == "quick" else 6}
         static_checks(ctx, rig)
         counter = {"n": 0}
 
@@ -387,7 +435,7 @@ def replay(case):
         if case.get("static"):
             static_checks(ctx, rig)
             return list(ctx.failures.values())
-        rig.eager_budget = {"reset": 1, "step": 4, "chain": 10}
+        rig.eager_budget = {"reset": 1, "step": 4, "chain": 10, "event": 99}
 
         def fail(oracle, sig, msg):
             ctx.fail(oracle, env, sig, msg, case)
